@@ -251,7 +251,15 @@ def gen_plan(prop, seed, index, tier="quick"):
         do = fr.choice([{"reply_error": fr.choice(ERR[api])}, {"reply_error": fr.choice(ERR[api])},
                         "lose_response", {"drop_after_apply": "reset"}, {"drop_before_apply": "eof"}])
         faults = [{"on": {"request": api, "nth": fr.randint(2, 10)}, "do": do}]
-        if nbrokers >= 2 and fr.random() < 0.45:
+        if fr.random() < 0.15:
+            # instead: a subscribed topic grows while a SyncGroup is being answered slowly, and
+            # the members refresh their metadata often enough to notice inside that window
+            tname = fr.choice(sorted(topics))
+            nth = fr.randint(1, 6)
+            faults = [{"on": {"request": "SyncGroup", "nth": nth}, "do": {"delay": fr.choice([0.3, 0.6])}},
+                      {"on": {"request": "SyncGroup", "nth": nth}, "do": {"partitions_grow": tname}}]
+            base_kw["metadata_max_age_ms"] = fr.choice([100, 200])
+        elif nbrokers >= 2 and fr.random() < 0.45:
             # instead: the coordinator's broker dies around a membership change - at a time,
             # or shortly after it has answered some group request (nothing in flight then)
             faults = []
@@ -678,6 +686,18 @@ def execute(plan):
                 world.count_fault("topic_create", world.now() + 2 * kw["metadata_max_age_ms"] / 1000)
                 env_log.append((world.log.seq, world.now(), "metadata_change", None))
 
+    def on_client_fault(name, arg):
+        # request-triggered environment change (plan["faults"]): a topic grows while the
+        # triggering request is being served
+        if name == "partitions_grow":
+            top = cl.topics.get(arg)
+            if top is not None:
+                p = top.add_partition()
+                world.log.add(world.now(), "partitions_grow", arg, p.index)
+                world.count_fault("partitions_grow", world.now() + 2 * kw["metadata_max_age_ms"] / 1000)
+                env_log.append((world.log.seq, world.now(), "metadata_change", None))
+
+    world.subscribe("client_fault", on_client_fault)
     result = {}
 
     async def main():
@@ -738,7 +758,8 @@ def execute(plan):
         snap = {"t": world.now(), "generation": g.generation if g else None,
                 "state": g.state if g else None,
                 "group_members": sorted(mm.client_id for mm in g.members.values()) if g else [],
-                "live": sorted(m.cid for m in live), "assignments": {}, "last_contact": {}}
+                "live": sorted(m.cid for m in live), "assignments": {}, "last_contact": {},
+                "npartitions": {t: len(top.partitions) for t, top in cl.topics.items()}}
         for m in live:
             try:
                 snap["assignments"][m.cid] = sorted((tp.topic, tp.partition)
@@ -1165,7 +1186,8 @@ def oracle_c06(plan, world, cl, ctx):
             for t in tnames:
                 top = cl.topics.get(t)
                 if top:
-                    want |= {(t, p.index) for p in top.partitions}
+                    # (the topic as it was when the snapshot was taken)
+                    want |= {(t, i) for i in range(snap.get("npartitions", {}).get(t, len(top.partitions)))}
         got = []
         for cid in live:
             a = snap["assignments"].get(cid)
@@ -1175,7 +1197,8 @@ def oracle_c06(plan, world, cl, ctx):
             world.violation("C06", "partition_owned_twice_after_quiet", dict(ctxd, assignments=snap["assignments"]))
         g_model = groups.groups.get(GROUP)
         if set(got) != want and not (set(got) - want) and getattr(g_model, "quiet_leader_swaps", 0) \
-                and any(e["do"] in ("partitions_grow", "topic_create") for e in plan["env"]):
+                and (any(e["do"] in ("partitions_grow", "topic_create") for e in plan["env"])
+                     or world.fault_counts.get("partitions_grow")):
             # the broker side kept a stale assignment (see simkit/group.py, KIP-814): not the
             # client's doing
             world.probe("coverage_not_judged_static_leader_swap")
